@@ -137,7 +137,9 @@ def run_paths(H, case, prog, selftest_keys=None, raised=None, **kw):
                 else:
                     H.engine_error(case, pr.raised)
                 continue
+            H.cur_ctx = pr.ctx
             yield pr.ctx, pr.value
+            H.cur_ctx = None
     except BoundExhausted as e:
         H.engine_error(case, e)
     except Unsupported as e:
@@ -272,3 +274,24 @@ def quat_log_lemmas(ctx, sign):
                 sN, cN = f['full']
                 lem.append((L('full'), z3.And(sN == 2 * S1 * sw, cN == 1 - 2 * S1 * S1)))
     return case, lem
+
+
+def quat_log_relations(ctx, sign):
+    """the conclusions of quat_log_lemmas(ctx, sign) as polynomial relations (terms that are zero), for certificates; with the list
+    of abstraction variables they eliminate"""
+    rels, elim = [], []
+    for n, f in enumerate(quat_log_families(ctx)):
+        A, S1, w, S3 = f['A'], f['S1'], f['w'], f['S3']
+        a1 = ctx.tfvar[S1.get_id()][1]
+        sw = w if sign > 0 else -w
+        rels += [S3 - 2 * A * sign, S1 * S1 - a1, a1 + w * w - 1]
+        elim += [S3]
+        if f['half'] is not None:
+            sn, cs = f['half']
+            rels += [sn - S1, cs - sw]
+            elim += [sn, cs]
+            if f['full'] is not None:
+                sN, cN = f['full']
+                rels += [sN - 2 * S1 * sw, cN - (1 - 2 * S1 * S1)]
+                elim += [sN, cN]
+    return rels, elim
